@@ -424,8 +424,11 @@ def finish(mod, tier, seed, st, t0):
         "wall_s": round(time.time() - t0, 2),
         "violations": len(confirmed),
     }
-    os.makedirs(os.path.join(VERIF, "evidence"), exist_ok=True)
-    with open(os.path.join(VERIF, "evidence", prop + ".json"), "w") as f:
+    # (the tools that run a check against a deliberately changed tree - tools/seed_regress.py, tools/seed_verify.py,
+    # mutants/run - point VERIF_EVIDENCE_DIR elsewhere, so that evidence/ only ever describes runs against /repo)
+    evdir = os.environ.get("VERIF_EVIDENCE_DIR") or os.path.join(VERIF, "evidence")
+    os.makedirs(evdir, exist_ok=True)
+    with open(os.path.join(evdir, prop + ".json"), "w") as f:
         json.dump(ev, f, indent=1, sort_keys=True)
         f.write("\n")
     print(
